@@ -42,11 +42,14 @@ TCtrInit == Is("ctr.init") /\ started /\ A(1) = ccfg.nparts /\ A(2) = N /\ A(4) 
 TChunkBegin == Is("ctr.chunk_begin") /\ phase = "count" /\ A(1) = chunk /\ (\A w \in Workers : pc[w] = "check") /\ Skip
 TStart == Is("ctr.worker_start") /\ phase = "count" /\ pc[W] = "check" /\ Skip
 TBefCheck == Is("ctr.before_limit_check") /\ phase = "count" /\ pc[W] = "check" /\ Skip
-TObs == Is("ctr.limit_obs") /\ pc[W] = "check" /\ A(2) = ccfg.limit /\ (IsExact => A(1) = total) /\ A(1) <= total /\ Skip
-TExitLimit == /\ Is("ctr.worker_exit_limit") /\ CheckLimit(W, IsExact) /\ pc'[W] = "exit"
-              /\ Consume /\ Keep
-TBefTake == /\ Is("ctr.before_take") /\ CheckLimit(W, IsExact) /\ pc'[W] = "take"
-            /\ Consume /\ Keep
+\* WHEN a worker decides to leave on the memory limit is not part of any property (results must be the same however
+\* the work is chunked), so the trace specification accepts either outcome of the check at any time; the threshold rule of
+\* Counter!CheckLimit is model-checked on the specification (MCCounter) and drives the schedule generation only
+TObs == Is("ctr.limit_obs") /\ pc[W] = "check" /\ Skip
+LeaveOrGo(w, to) == /\ phase = "count" /\ pc[w] = "check" /\ pc' = [pc EXCEPT ![w] = to]
+                    /\ UNCHANGED <<ccfg, phase, chunk, reader, total, nrecs, held, table, temps, counts, mpart, mtodo, mread, mmap>>
+TExitLimit == Is("ctr.worker_exit_limit") /\ LeaveOrGo(W, "exit") /\ Consume /\ Keep
+TBefTake == Is("ctr.before_take") /\ LeaveOrGo(W, "take") /\ Consume /\ Keep
 TTake == /\ Is("seq.take") /\ reader < N /\ Take(W) /\ held'[W] = A(1) /\ A(2) = ccfg.recs[A(1) + 1].len
          /\ Consume /\ Keep
 TTakeNone == Is("seq.take_none") /\ reader = N /\ Take(W) /\ Consume /\ Keep
